@@ -82,8 +82,11 @@ func flip(b []byte, s *gen.Stream) []byte {
 
 func mismatchFor(f byteField, actual []byte, s *gen.Stream) []byte {
 	if f.flag == "minimum_tee_tcb_svn" {
+		// a minimum the quote misses in ONE component only, at any position
 		o := append([]byte{}, actual...)
-		for i := range o {
+		start := s.Intn(len(o))
+		for k := range o {
+			i := (start + k) % len(o)
 			if o[i] < 255 {
 				o[i]++
 				return o
@@ -125,7 +128,9 @@ func drawC19(t *rapid.T, dir string, toolQuote map[string][]byte) *c19Case {
 	for i := range w.Q.TeeTcbSvn {
 		w.Q.TeeTcbSvn[i] = byte(1 + s.Intn(200))
 	}
-	w.Q.TeeTcbSvn[1] = 0
+	// component 1 is the TDX module's major version on modules since 1.5 (0 before): the policy's minimum is compared
+	// component by component either way
+	w.Q.TeeTcbSvn[1] = byte(rapid.SampledFrom([]int{0, 0, 1, 1, 2}).Draw(t, "tdxModuleMajor"))
 	w.HonestCollateral()
 	// the tool judges validity at the current time, whatever the time zone of its process: a leaf whose window
 	// ends or starts a few hours from now, and a TZ on either side of UTC
@@ -923,6 +928,63 @@ func TestC19(t *testing.T) {
 	// One setting at a time: a quote that verifies (root A given by flag), no network, and exactly ONE policy setting —
 	// a numeric minimum written in one of many spellings, or the config's MR_TD allow-list together with the -mr_td
 	// flag — so that no other fault can hide how that one setting is read.
+	// minimum_tee_tcb_svn, component by component: the quote's own value with exactly one of the sixteen components
+	// raised by one is a minimum the quote misses (exit 4), whatever kind of TDX module the quote comes from
+	// (TEE_TCB_SVN[1] = 0: before 1.5; > 0: the module's major version); the quote's own value is met (exit 0).
+	gen.Direct(t, "minimum-tee-tcb-svn-components", func(t *testing.T) {
+		dir := filepath.Join(base, "teetcb")
+		_ = os.RemoveAll(dir)
+		if err := os.MkdirAll(dir, 0o755); err != nil {
+			gen.HarnessError(t, "mkdir: %v", err)
+		}
+		pA := gen.NewPKI(gen.PKISpec{Seed: "pki-A"})
+		i := 0
+		for _, major := range []byte{0, 1, 2} {
+			s := gen.NewStream(gen.Seed()+uint64(major)+50, "c19tee")
+			w := gen.NewWorld(pA, s)
+			binary.LittleEndian.PutUint64(w.Q.Xfam[:], gen.XfamFixed1)
+			binary.LittleEndian.PutUint64(w.Q.TdAttr[:], 0)
+			for k := range w.Q.TeeTcbSvn {
+				w.Q.TeeTcbSvn[k] = byte(1 + s.Intn(250))
+			}
+			w.Q.TeeTcbSvn[1] = major
+			w.HonestCollateral()
+			w.Build()
+			quote, roots := filepath.Join(dir, fmt.Sprintf("quote%d.dat", major)), filepath.Join(dir, "roots.pem")
+			if os.WriteFile(quote, w.Raw, 0o644) != nil || os.WriteFile(roots, pA.Root.PEM, 0o644) != nil {
+				gen.HarnessError(t, "cannot write the case files")
+			}
+			for k := -1; k < 16; k++ {
+				i++
+				if !gen.ShardOwns(i) {
+					continue
+				}
+				min := append([]byte{}, w.Q.TeeTcbSvn[:]...)
+				want, what := 0, fmt.Sprintf("minimum_tee_tcb_svn equal to the quote's %x", min)
+				if k >= 0 {
+					min[k]++
+					want, what = 4, fmt.Sprintf("minimum_tee_tcb_svn = the quote's %x with component %d raised by one", w.Q.TeeTcbSvn[:], k)
+				}
+				c := &c19Case{classes: map[int]string{}, netMode: "unreachable", desc: []string{what}}
+				c.args = []string{"-inform=bin", "-in=" + quote, "-trusted_roots=" + roots, "-minimum_tee_tcb_svn=" + hex.EncodeToString(min)}
+				gen.Eval()
+				code, stderr, err := runTool(tool, c)
+				if err != nil {
+					gen.HarnessError(t, "cannot execute the tool: %v", err)
+				}
+				gen.NonTrivial("tee-tcb", major, k)
+				gen.Class(fmt.Sprintf("minimum-tee-tcb-svn:exit%d", want))
+				if code != want {
+					files := map[string]string{filepath.Base(quote): hex.EncodeToString(w.Raw), "roots.pem": hex.EncodeToString(pA.Root.PEM)}
+					gen.Fail(t, gen.Violation{Key: fmt.Sprintf("one-setting:exit-%d-instead-of-%d", code, want), Oracle: "exit 0 only if the effective policy is satisfied; a policy mismatch exits 4",
+						Detail: fmt.Sprintf("%s: exit %d, want %d; stderr: %s", what, code, want, lastLine(stderr)), Replay: map[string]any{"kind": "tool", "args": templArgs(c.args, dir), "desc": c.desc, "files": files, "stdin_hex": "", "allowed": []int{want}, "dir": dir}})
+					return
+				}
+			}
+		}
+		gen.Exhaustive("3 kinds of TDX module x (the quote's own TEE_TCB_SVN + each of its 16 components raised by one) as -minimum_tee_tcb_svn", true)
+	})
+
 	gen.Prop(t, "one-setting-at-a-time", gen.N(300, 8000), func(t *rapid.T) {
 		n++
 		dir := filepath.Join(base, fmt.Sprintf("one%d", n%8))
@@ -935,7 +997,10 @@ func TestC19(t *testing.T) {
 		w := gen.NewWorld(pA, s)
 		binary.LittleEndian.PutUint64(w.Q.Xfam[:], gen.XfamFixed1|(s.Uint64()&gen.XfamFixed0))
 		binary.LittleEndian.PutUint64(w.Q.TdAttr[:], s.Uint64()&gen.TdAttrAllowed)
-		w.Q.TeeTcbSvn[1] = 0
+		for i := range w.Q.TeeTcbSvn {
+			w.Q.TeeTcbSvn[i] = byte(1 + s.Intn(250))
+		}
+		w.Q.TeeTcbSvn[1] = byte(rapid.SampledFrom([]int{0, 0, 1, 3}).Draw(t, "tdxModuleMajor"))
 		// header SVNs that leave room on both sides
 		binary.LittleEndian.PutUint16(w.Q.Word10[:], uint16(1+s.Intn(60000)))
 		binary.LittleEndian.PutUint16(w.Q.Word8[:], uint16(1+s.Intn(60000)))
@@ -952,7 +1017,76 @@ func TestC19(t *testing.T) {
 		c.args = []string{"-inform=bin", "-in=" + wr("quote.dat", w.Raw), "-trusted_roots=" + wr("roots.pem", pA.Root.PEM)}
 		want := 0
 		what := ""
-		if rapid.Bool().Draw(t, "numeric") {
+		settingKind := rapid.SampledFrom([]string{"numeric", "numeric", "allow-list", "allow-list", "tee-tcb-svn", "separate-argument"}).Draw(t, "setting")
+		if settingKind == "tee-tcb-svn" {
+			// minimum_tee_tcb_svn is compared component by component, all sixteen of them, whatever kind of TDX module the
+			// quote comes from: the quote's value with ONE component raised is missed, with one lowered is met
+			k := rapid.IntRange(0, 15).Draw(t, "component")
+			min := append([]byte{}, w.Q.TeeTcbSvn[:]...)
+			how := rapid.SampledFrom([]string{"equal", "one-component-higher", "one-component-lower", "one-component-255", "all-zero"}).Draw(t, "minimum")
+			switch how {
+			case "one-component-higher":
+				min[k]++
+				want = 4
+			case "one-component-lower":
+				if min[k] > 0 {
+					min[k]--
+				}
+			case "one-component-255":
+				min[k] = 255
+				want = 4
+			case "all-zero":
+				min = make([]byte, 16)
+			}
+			if rapid.Bool().Draw(t, "viaConfig") {
+				cfg := &ccpb.Config{Policy: &ccpb.Policy{HeaderPolicy: &ccpb.HeaderPolicy{}, TdQuoteBodyPolicy: &ccpb.TDQuoteBodyPolicy{MinimumTeeTcbSvn: min}}}
+				if rapid.Bool().Draw(t, "text") {
+					b, _ := prototext.Marshal(cfg)
+					c.args = append(c.args, "-config="+wr("config.textproto", b))
+				} else {
+					b, _ := proto.Marshal(cfg)
+					c.args = append(c.args, "-config="+wr("config.pb", b))
+				}
+			} else {
+				c.args = append(c.args, "-minimum_tee_tcb_svn="+hex.EncodeToString(min))
+			}
+			what = fmt.Sprintf("minimum_tee_tcb_svn %s (component %d), quote has %x", how, k, w.Q.TeeTcbSvn[:])
+		} else if settingKind == "separate-argument" {
+			// "-flag value" is the other spelling package flag documents for every non-boolean flag, and all of the
+			// tool's flags but -test_local_getter are such: the value is consumed and the flags behind it still count
+			var args []string
+			sep := func(name, val string) {
+				if rapid.Bool().Draw(t, "separate-"+name) {
+					args = append(args, "-"+name, val)
+				} else {
+					args = append(args, "-"+name+"="+val)
+				}
+			}
+			args = append(args, "-inform", "bin", "-in", wr("quote.dat", w.Raw))
+			switch rapid.SampledFrom([]string{"both-false", "collateral-false", "crl-false", "none"}).Draw(t, "switches") {
+			case "both-false":
+				args = append(args, "-get_collateral", "false", "-check_crl", "false")
+			case "collateral-false":
+				args = append(args, "-get_collateral", "false")
+			case "crl-false":
+				args = append(args, "-check_crl", "false")
+			}
+			sep("trusted_roots", wr("roots.pem", pA.Root.PEM))
+			other := append([]byte{}, w.Q.MrTd[:]...)
+			other[s.Intn(48)] ^= 0x20
+			switch rapid.SampledFrom([]string{"none", "match", "mismatch", "malformed"}).Draw(t, "trailingFlag") {
+			case "match":
+				sep("mr_td", hex.EncodeToString(w.Q.MrTd[:]))
+			case "mismatch":
+				sep("mr_td", hex.EncodeToString(other))
+				want = 4
+			case "malformed":
+				sep("mr_td", "zz")
+				want = 1
+			}
+			c.args = args
+			what = "flags with their value as a separate argument: " + strings.Join(relArgs(args, dir), " ")
+		} else if settingKind == "numeric" {
 			qe := rapid.Bool().Draw(t, "qe")
 			name, actual := "minimum_pce_svn", uint64(svnOf(w.Q, false))
 			if qe {
